@@ -3,7 +3,7 @@
 
     The oracles of [Model.Bsc] (header hash, recovered sealer) are instantiated
     by the table the harness recorded from the real functions. *)
-From Teleport Require Import Base.Bytes Base.Outcome Model.Bsc.
+From Teleport Require Import Base.Bytes Base.Outcome Model.Bsc Model.BscRlp.
 Local Open Scope N_scope.
 
 (** * Hex literals (the case files carry byte strings as hex text; parsing a Coq string literal is much
@@ -40,6 +40,10 @@ Record ocase := {
   k_cs : cstate; k_cons0 : consstate;
   k_create_class : nat; k_create_kind : N; k_create_state : ostate;
   k_oracle : list (header * (option bytes * option bytes));   (* header -> (Hash() unless it panics, recovered sealer unless error) *)
+  (* per header (creation header first): the bytes the real code hashes for Hash() (None: ToBscHeader panics) and for
+     the seal hash (None: extra data shorter than the seal), and the Go-side fact that Hash() / sealHash / the
+     recovered sealer are keccak256 / secp256k1 recovery of exactly these bytes *)
+  k_pre : list (option bytes * option bytes * bool);
   k_steps : list ostep
 }.
 
@@ -154,12 +158,36 @@ Section WithOracle.
          end.
 End WithOracle.
 
+(** * The pre-images of Model/BscRlp.v against the bytes the real code hashes:
+    13 block-hash pre-image (rlp of ToBscHeader, empty from number 2^63 on), 14 seal pre-image (encodeSigHeader),
+    15 the real hashes are not keccak256 / recovery of the recorded bytes (harness-side fact) *)
+Definition pre_diff (chain : N) (h : header) (p : option bytes * option bytes * bool) : list nat :=
+  let '(bp, sp, okf) := p in
+  (match bp with
+   | Some b => if tobsc_ok h &&& bytes_eqb (block_rlp h) b then [] else [13%nat]
+   | None => if tobsc_ok h then [13%nat] else []
+   end) ++
+  (match sp with
+   | Some b => if negb (len (h_extra h) <? extraSeal) &&& bytes_eqb (seal_rlp chain h) b then [] else [14%nat]
+   | None => if len (h_extra h) <? extraSeal then [] else [14%nat]
+   end) ++
+  (if okf then [] else [15%nat]).
+
+Fixpoint cmp_pre_aux (chain : N) (i : nat) (hs : list header) (ps : list (option bytes * option bytes * bool)) : list (nat * nat) :=
+  match hs, ps with
+  | h :: hs', p :: ps' => map (fun k => (i, k)) (pre_diff chain h p) ++ cmp_pre_aux chain (S i) hs' ps'
+  | [], [] => []
+  | _, _ => [(i, 12%nat)]
+  end.
+Definition cmp_pre (c : ocase) : list (nat * nat) :=
+  cmp_pre_aux (c_chain (k_cs c)) 0 (c_header (k_cs c) :: map s_hdr (k_steps c)) (k_pre c).
+
 Fixpoint number {A} (i : nat) (l : list A) : list (nat * A) :=
   match l with [] => [] | x :: l' => (i, x) :: number (S i) l' end.
 
 (** step index 0 = creation, i = i-th submission (1-based) *)
 Definition mismatches (cs : list ocase) : list (nat * (nat * nat)) :=
-  flat_map (fun ic => map (fun m => (fst ic, m)) (cmp_case (k_oracle (snd ic)) (snd ic))) (number 0 cs).
+  flat_map (fun ic => map (fun m => (fst ic, m)) (cmp_case (k_oracle (snd ic)) (snd ic) ++ cmp_pre (snd ic))) (number 0 cs).
 
 (** * Monitor: the property, evaluated on the IMPLEMENTATION's trace alone.
     It never calls the model's step functions; it uses the recorded values of
